@@ -30,6 +30,8 @@ def jobs(tier):
         for kind in ('include', 'after'):
             js.append({'name': 'verify discovers dependency shape=%d %s' % (shape, kind), 'harness': (H, 'h_deps'),
                        'params': {'mode': 'Verify', 'shape': shape, 'kind': kind}})
+    from . import project
+    js += project.jobs('C06', tier)
     return js
 
 
